@@ -306,16 +306,17 @@ func (blockchain *Blockchain) isApplicationHalted(height uint64) bool {
 		}
 	}
 
-	votingResult := new(big.Float).Quo(
-		new(big.Float).SetInt(totalVotedPower),
-		new(big.Float).SetInt(blockchain.totalPower),
-	)
+	return isMoreThanTwoThirds(totalVotedPower, blockchain.totalPower)
+}
 
-	if votingResult.Cmp(big.NewFloat(votingPowerConsensus)) == 1 {
-		return true
+// isMoreThanTwoThirds reports whether voted/total > 2/3, exactly: the quotient
+// as big.Float compared with the float64 constant 2./3. (which is slightly
+// less than 2/3) also accepted exactly two thirds and a hair below.
+func isMoreThanTwoThirds(voted, total *big.Int) bool {
+	if voted == nil || total == nil {
+		return false
 	}
-
-	return false
+	return new(big.Int).Mul(voted, big.NewInt(3)).Cmp(new(big.Int).Mul(total, big.NewInt(2))) == 1
 }
 
 // Deprecated
@@ -358,6 +359,7 @@ func (blockchain *Blockchain) isUpdateCommissionsBlockV2(height uint64) []byte {
 	}
 	// calculate total power of validators
 	maxVotingResult := big.NewFloat(0)
+	maxVotedPower := big.NewInt(0)
 
 	var price string
 	for _, commission := range commissions {
@@ -374,10 +376,11 @@ func (blockchain *Blockchain) isUpdateCommissionsBlockV2(height uint64) []byte {
 
 		if maxVotingResult.Cmp(votingResult) == -1 {
 			maxVotingResult = votingResult
+			maxVotedPower = totalVotedPower
 			price = commission.Price
 		}
 	}
-	if maxVotingResult.Cmp(big.NewFloat(votingPowerConsensus)) == 1 {
+	if isMoreThanTwoThirds(maxVotedPower, blockchain.totalPower) {
 		return []byte(price)
 	}
 
@@ -391,6 +394,7 @@ func (blockchain *Blockchain) isUpdateNetworkBlockV2(height uint64) (string, boo
 	}
 	// calculate total power of validators
 	maxVotingResult := big.NewFloat(0)
+	maxVotedPower := big.NewInt(0)
 	var version string
 	for _, v := range versions {
 		totalVotedPower := big.NewInt(0)
@@ -406,10 +410,11 @@ func (blockchain *Blockchain) isUpdateNetworkBlockV2(height uint64) (string, boo
 
 		if maxVotingResult.Cmp(votingResult) == -1 {
 			maxVotingResult = votingResult
+			maxVotedPower = totalVotedPower
 			version = v.Version
 		}
 	}
-	if maxVotingResult.Cmp(big.NewFloat(votingPowerConsensus)) == 1 {
+	if isMoreThanTwoThirds(maxVotedPower, blockchain.totalPower) {
 		return version, true
 	}
 
